@@ -162,6 +162,13 @@ func (ph *peerHandler) startIfDisconnected() {
 	ph.mu.Lock()
 	defer ph.mu.Unlock()
 
+	if ph.ctx.Err() != nil {
+		// The handler has been stopped (service stopped or peer removed). This
+		// call was queued by a notification, AddPeer or Start before that and
+		// must not schedule new reconnects.
+		return
+	}
+
 	if ph.reconnectTimer == nil && ph.host.Network().Connectedness(ph.peer) != network.Connected {
 		logger.Debugw("disconnected from peer", "peer", ph.peer)
 		// Always start with a short timeout so we can stagger things a bit.
